@@ -883,7 +883,12 @@ def gen_neldermead(ctx, cases, n_cases):
         An, cn = np.array(A, dtype=np.float64).reshape(n, n), np.array(c, dtype=np.float64)
         x0n = np.array(x0, dtype=np.float64)
         bn = np.array(bounds, dtype=np.float64) if bounds is not None else np.array([[], []]).T
+        frozen_in = [v.tobytes() for v in (x0n, bn, An, cn)]
         res = nelder_mead(_quad, x0n, bounds=bn, args=(An, cn, k), tol_f=tol_f, tol_x=tol_x, max_iter=max_iter)
+        if [v.tobytes() for v in (x0n, bn, An, cn)] != frozen_in:
+            ctx.spec_fail("input_mutated", "nelder_mead modified one of x0 / bounds / args", {"x0": x0, "bounds": bounds})
+        if any(np.shares_memory(res.x, v) or np.shares_memory(res.final_simplex, v) for v in (x0n, bn, An, cn)):
+            ctx.spec_fail("nm_alias_input", "nelder_mead: a returned array shares memory with an input", {"x0": x0, "bounds": bounds})
         x, fun, ok, nit, simplex = [float(t) for t in res.x], float(res.fun), bool(res.success), int(res.nit), res.final_simplex.tolist()
         ctx.count("nm:kind:" + kind)
         ctx.count("nm:n=%d" % n)
@@ -1001,6 +1006,383 @@ def gen_neldermead(ctx, cases, n_cases):
 
 
 # ----------------------------------------------------------------------------------------
+# hardening streams: argument forms, histories, aliasing (every public entry point)
+
+
+@njit
+def _p3(x):
+    return x * x * x - 0.3
+
+
+@njit
+def _p3d(x):
+    return 3.0 * x * x
+
+
+@njit
+def _p3dd(x):
+    return 6.0 * x
+
+
+@njit
+def _hump(x):
+    return -((x - 0.3) * (x - 0.3))
+
+
+def finding(ctx, key, what, replay):
+    """a defect of the clean code found by the hardening streams: counted (`unlisted-finding:<key>`) with one
+    example kept in the evidence until the key is listed in known_findings.txt; then it goes through spec_fail"""
+    if key in ctx.known:
+        ctx.spec_fail(key, what, replay)
+        return
+    ctx.count("unlisted-finding:" + key)
+    ctx.extra.setdefault("unlisted_findings", {}).setdefault(key, {"what": what, "replay": replay})
+
+
+SCALAR_FORMS = [("int", int), ("bool", bool), ("int8", np.int8), ("int16", np.int16), ("int32", np.int32),
+                ("int64", np.int64), ("uint8", np.uint8), ("uint16", np.uint16), ("uint32", np.uint32),
+                ("uint64", np.uint64), ("intp", np.intp), ("float32", np.float32), ("float64", np.float64),
+                ("float", float), ("0d-float", lambda v: np.array(float(v))), ("0d-int", lambda v: np.array(int(v)))]
+
+
+def _bits(a):
+    a = np.asarray(a)
+    return (a.dtype.str, a.shape, a.tobytes())
+
+
+def canon_res(r):
+    return "%s %d %d %d" % (fx(float(r.root)), int(r.function_calls), int(r.iterations), 1 if r.converged else 0)
+
+
+def guarded(call):
+    """(canonical string, raw result); library errors become strings, Numba typing refusals 'NOT-ACCEPTED'"""
+    from numba.core.errors import TypingError
+    try:
+        r = call()
+    except ValueError:
+        return "ERR:ValueError", None
+    except RuntimeError:
+        return "ERR:RuntimeError", None
+    except TypingError:
+        return "NOT-ACCEPTED", None
+    return None, r
+
+
+def gen_hardening(ctx, cases):
+    from quantecon.optimize.root_finding import newton, newton_halley, newton_secant, bisect, brentq
+    from quantecon.optimize.scalar_maximization import brent_max
+    import importlib
+    nm_mod = importlib.import_module("quantecon.optimize.nelder_mead")
+    from quantecon.optimize.nelder_mead import nelder_mead
+    rng = ctx.rng
+    K1, K2 = 1 + 1e-4, 1e-4
+    SQ = float(np.sqrt(2.2e-16))
+    GM = float(0.5 * (3.0 - np.sqrt(5.0)))
+    e = X * X * X - C(0.3)
+    d1 = C(3.0) * X * X
+    d2 = C(6.0) * X
+    hump = -((X - C(0.3)) * (X - C(0.3)))
+    a0, a1, a2 = e.arrays(), d1.arrays(), d2.arrays()
+    args3 = a0 + a1 + a2
+    ah = hump.arrays()
+    TOL = 2.0 ** -20            # exactly representable in float32
+    inputs = [a0[0], a0[1], a1[0], a1[1], a2[0], a2[1], ah[0], ah[1]]
+    inputs_before = [_bits(v) for v in inputs]
+    kept = []                   # (label, result object, frozen bits) of EVERY earlier result
+
+    def keep(label, out, raw=None):
+        kept.append((label, out, None if raw is None else [_bits(raw.x), _bits(raw.final_simplex)], raw))
+
+    def rejudge(after):
+        for label, out, frozen, raw in kept:
+            if raw is not None:
+                now = [_bits(raw.x), _bits(raw.final_simplex)]
+                if now != frozen:
+                    ctx.spec_fail("history_earlier_result_changed", "result of %s changed after the later call %s" % (label, after),
+                                  {"earlier": label, "later": after})
+        if [_bits(v) for v in inputs] != inputs_before:
+            ctx.spec_fail("input_mutated", "an input array (args) was modified by %s" % after, {"call": after})
+
+    # ---------------- scalar routines: canonical calls ----------------
+    def scalar_calls(cv):
+        """the six scalar entry points with the scalar converter cv applied to every scalar argument"""
+        return {
+            "bisect": (lambda: bisect(_f1, cv(0), cv(1), args=a0, xtol=TOL, rtol=TOL, maxiter=100, disp=True),
+                       "C17 bisect sc=float f=%s a=%s b=%s xtol=%s rtol=%s maxiter=100 disp=1" % (e.wire(), fx(0.0), fx(1.0), fx(TOL), fx(TOL))),
+            "brentq": (lambda: brentq(_f1, cv(0), cv(1), args=a0, xtol=TOL, rtol=TOL, maxiter=100, disp=True),
+                       "C17 brentq sc=float f=%s a=%s b=%s xtol=%s rtol=%s maxiter=100 disp=1" % (e.wire(), fx(0.0), fx(1.0), fx(TOL), fx(TOL))),
+            "newton": (lambda: newton(_g0, cv(1), _g1, args=args3, tol=TOL, maxiter=50, disp=True),
+                       "C17 newton sc=float f=%s fp=%s x0=%s tol=%s maxiter=50 disp=1" % (e.wire(), d1.wire(), fx(1.0), fx(TOL))),
+            "halley": (lambda: newton_halley(_g0, cv(1), _g1, _g2, args=args3, tol=TOL, maxiter=50, disp=True),
+                       "C17 halley sc=float f=%s fp=%s fpp=%s x0=%s tol=%s maxiter=50 disp=1" % (e.wire(), d1.wire(), d2.wire(), fx(1.0), fx(TOL))),
+            "secant": (lambda: newton_secant(_f1, cv(1), args=a0, tol=TOL, maxiter=50, disp=True),
+                       "C17 secant sc=float f=%s k1=%s k2=%s x0=%s tol=%s maxiter=50 disp=1" % (e.wire(), fx(K1), fx(K2), fx(1.0), fx(TOL))),
+            "brentmax": (lambda: brent_max(_f1, cv(0), cv(1), args=ah, xtol=TOL, maxiter=100),
+                         "C17 brentmax sc=float f=%s a=%s b=%s xtol=%s sqrteps=%s gm=%s maxiter=100" % (hump.wire(), fx(0.0), fx(1.0), fx(TOL), fx(SQ), fx(GM))),
+        }
+
+    def run_scalar(name, call):
+        err, r = guarded(call)
+        if err:
+            return err
+        if name == "brentmax":
+            xf, fval, info = r
+            return "%s %s %d %d" % (fx(float(xf)), fx(float(fval)), int(info[0]), int(info[1]))
+        return canon_res(r)
+
+    canon = {}
+    for name, (call, line) in scalar_calls(float).items():
+        canon[name] = run_scalar(name, call)
+        keep(name + " canonical", canon[name])
+        cases.append(Case(line, canon[name], tag="forms"))
+        if canon[name].startswith("ERR") or canon[name] == "NOT-ACCEPTED":
+            ctx.spec_fail("forms_canonical", "%s failed on the canonical float call: %s" % (name, canon[name]), {"op": name})
+    rejudge("canonical scalar calls")
+
+    # ---------------- (3) argument forms of the scalar routines ----------------
+    forms = list(SCALAR_FORMS)
+    if not ctx.thorough:
+        forms = [rng.choice(forms[:2])] + rng.sample(forms[2:], 1)
+    for label, cv in forms:
+        for name, (call, line) in scalar_calls(cv).items():
+            out = run_scalar(name, call)
+            ctx.count("forms:scalar:" + label)
+            if out == "NOT-ACCEPTED":
+                ctx.count("forms:not-accepted:%s:%s" % (name, label))
+                continue
+            if out != canon[name]:
+                ctx.spec_fail("argform_scalar", "%s with %s end points / start gives %s, with floats %s" % (name, label, out, canon[name]),
+                              {"op": name, "form": label, "got": out, "float_form": canon[name]})
+            cases.append(Case(line, out, tag="forms"))
+        rejudge("scalar forms " + label)
+    # tolerances / counters / flags in other types, positional calls, args omitted / args=()
+    tolforms = [("float32", np.float32), ("float64", np.float64), ("0d", lambda v: np.array(v))]
+    miforms = [("int8", np.int8), ("int32", np.int32), ("uint16", np.uint16), ("int64", np.int64), ("float", float)]
+    dispforms = [("int", 1), ("np.bool_", np.bool_(True)), ("uint8", np.uint8(1))]
+    if not ctx.thorough:
+        tolforms, miforms, dispforms = [rng.choice(tolforms)], [rng.choice(miforms)], [rng.choice(dispforms)]
+    variants = []
+    for tl, tv in tolforms:
+        for ml, mv in miforms:
+            for dl, dv in dispforms:
+                t, m50, m100 = tv(TOL), mv(50), mv(100)
+                tag = "tol:%s maxiter:%s disp:%s" % (tl, ml, dl)
+                variants += [
+                    ("bisect", tag, lambda t=t, m=m100, dv=dv: bisect(_f1, 0.0, 1.0, a0, t, t, m, dv)),          # positional
+                    ("brentq", tag, lambda t=t, m=m100, dv=dv: brentq(_f1, 0.0, 1.0, a0, t, t, m, dv)),
+                    ("newton", tag, lambda t=t, m=m50, dv=dv: newton(_g0, 1.0, _g1, args3, t, m, dv)),
+                    ("halley", tag, lambda t=t, m=m50, dv=dv: newton_halley(_g0, 1.0, _g1, _g2, args3, t, m, dv)),
+                    ("secant", tag, lambda t=t, m=m50, dv=dv: newton_secant(_f1, 1.0, a0, t, m, dv)),
+                    ("brentmax", tag, lambda t=t, m=m100: brent_max(_f1, 0.0, 1.0, ah, t, m)),
+                ]
+    # args omitted and args=() with a function that takes no extra arguments (same operation order as the program)
+    noargs = [
+        ("bisect", "args omitted", lambda: bisect(_p3, 0.0, 1.0, xtol=TOL, rtol=TOL, maxiter=100, disp=True)),
+        ("bisect", "args=()", lambda: bisect(_p3, 0.0, 1.0, args=(), xtol=TOL, rtol=TOL, maxiter=100, disp=True)),
+        ("brentq", "args omitted", lambda: brentq(_p3, 0.0, 1.0, xtol=TOL, rtol=TOL, maxiter=100, disp=True)),
+        ("newton", "args omitted", lambda: newton(_p3, 1.0, _p3d, tol=TOL, maxiter=50, disp=True)),
+        ("halley", "args omitted", lambda: newton_halley(_p3, 1.0, _p3d, _p3dd, tol=TOL, maxiter=50, disp=True)),
+        ("secant", "args omitted", lambda: newton_secant(_p3, 1.0, tol=TOL, maxiter=50, disp=True)),
+        ("brentmax", "args omitted", lambda: brent_max(_hump, 0.0, 1.0, xtol=TOL, maxiter=100)),
+    ]
+    variants += noargs if ctx.thorough else rng.sample(noargs, 2)
+    for name, tag, call in variants:
+        out = run_scalar(name, call)
+        ctx.count("forms:variant")
+        if out == "NOT-ACCEPTED":
+            ctx.count("forms:not-accepted:%s:%s" % (name, tag))
+        elif out != canon[name]:
+            ctx.spec_fail("argform_variant", "%s called with %s gives %s, canonical keyword/float call gives %s" % (name, tag, out, canon[name]),
+                          {"op": name, "form": tag, "got": out, "canonical": canon[name]})
+    # defaults: omitted optional arguments == their documented values passed explicitly
+    defaults = [
+        ("bisect", lambda: bisect(_f1, 0.0, 1.0, args=a0), lambda: bisect(_f1, 0.0, 1.0, a0, 2e-12, 4 * EPS, 100, True)),
+        ("brentq", lambda: brentq(_f1, 0.0, 1.0, args=a0), lambda: brentq(_f1, 0.0, 1.0, a0, 2e-12, 4 * EPS, 100, True)),
+        ("newton", lambda: newton(_g0, 1.0, _g1, args=args3), lambda: newton(_g0, 1.0, _g1, args3, 1.48e-8, 50, True)),
+        ("halley", lambda: newton_halley(_g0, 1.0, _g1, _g2, args=args3), lambda: newton_halley(_g0, 1.0, _g1, _g2, args3, 1.48e-8, 50, True)),
+        ("secant", lambda: newton_secant(_f1, 1.0, args=a0), lambda: newton_secant(_f1, 1.0, a0, 1.48e-8, 50, True)),
+        ("brentmax", lambda: brent_max(_f1, 0.0, 1.0, args=ah), lambda: brent_max(_f1, 0.0, 1.0, ah, 1e-5, 500)),
+    ]
+    for name, c1, c2 in (defaults if ctx.thorough else rng.sample(defaults, 2)):
+        o1, o2 = run_scalar(name, c1), run_scalar(name, c2)
+        ctx.count("forms:defaults")
+        if o1 != o2 or o1.startswith("ERR"):
+            ctx.spec_fail("argform_defaults", "%s: omitted optional arguments give %s, the documented defaults passed explicitly %s" % (name, o1, o2),
+                          {"op": name, "omitted": o1, "explicit": o2})
+    # explicit zeros / boundary values of the tolerances and counters
+    zeros = [("0", 0), ("0.0", 0.0), ("-0.0", -0.0), ("float32 0", np.float32(0)), ("False", False)]
+    for zl, z in (zeros if ctx.thorough else [zeros[1]] + rng.sample(zeros, 1)):
+        zc = [("bisect", lambda: bisect(_f1, 0.0, 1.0, args=a0, xtol=z)), ("brentq", lambda: brentq(_f1, 0.0, 1.0, args=a0, xtol=z)),
+              ("newton", lambda: newton(_g0, 1.0, _g1, args=args3, tol=z)), ("halley", lambda: newton_halley(_g0, 1.0, _g1, _g2, args=args3, tol=z)),
+              ("secant", lambda: newton_secant(_f1, 1.0, args=a0, tol=z))]
+        for name, call in (zc if ctx.thorough else rng.sample(zc, 2)):
+            out = run_scalar(name, call)
+            ctx.count("forms:zero-tolerance")
+            if out not in ("ERR:ValueError", "NOT-ACCEPTED"):
+                ctx.spec_fail("argform_zero_tol", "%s accepted tolerance %s: %s" % (name, zl, out), {"op": name, "tol": zl, "got": out})
+    # rtol = 0 is legal for the bracketing methods (xtol alone): judged by the tolerance oracle
+    for name, fn in (("bisect", bisect), ("brentq", brentq)):
+        out0, r0 = res_str(lambda: fn(_f1, 0.0, 1.0, args=a0, xtol=TOL, rtol=0.0, maxiter=100, disp=False))
+        out1, _ = res_str(lambda: fn(_f1, 0.0, 1.0, args=a0, xtol=TOL, rtol=0.0, maxiter=100, disp=True))
+        check_bracket_result(ctx, name, e, 0.0, 1.0, TOL, 0.0, 100, None, out0, r0, out1)
+        cases.append(Case("C17 %s sc=float f=%s a=%s b=%s xtol=%s rtol=%s maxiter=100 disp=0" % (name, e.wire(), fx(0.0), fx(1.0), fx(TOL), fx(0.0)),
+                          out0, tag="forms"))
+    rejudge("scalar variants")
+
+    # ---------------- (1) histories: repeated / interleaved calls are functions of their arguments ----------------
+    order = list(scalar_calls(float).items()) * 2
+    rng.shuffle(order)
+    for name, (call, line) in order:
+        out = run_scalar(name, call)
+        ctx.count("history:repeat")
+        if out != canon[name]:
+            ctx.spec_fail("history_not_a_function", "%s: repeated call with identical arguments gives %s, first call gave %s" % (name, out, canon[name]),
+                          {"op": name, "first": canon[name], "again": out})
+        # interleave a call of another specialisation (integer arguments) in between
+        run_scalar(name, scalar_calls(int)[name][0])
+    rejudge("interleaved repeats")
+
+    # ---------------- nelder_mead: forms, histories, aliasing ----------------
+    A = np.array([[2.0, 0.5], [0.5, 1.0]])
+    cvec = np.array([1.0, -1.0])
+    bnd = np.array([[0.0, 2.0], [0.0, 2.0]])
+    x0 = np.array([2.0, 1.0])                     # integer-valued so that integer dtypes carry the same point
+    nm_inputs = [A, cvec, bnd, x0]
+    nm_before = [_bits(v) for v in nm_inputs]
+
+    def nm_str(r):
+        return "%s %s %d %d %s" % (",".join(fx(v) for v in r.x), fx(float(r.fun)), 1 if r.success else 0, int(r.nit),
+                                   ";".join(",".join(fx(v) for v in row) for row in r.final_simplex))
+
+    def nm_line(bounds, tol_f, tol_x, max_iter):
+        return "C17 neldermead sc=float A=%s c=%s k=%s x0=%s bounds=%s tolf=%s tolx=%s maxiter=%d k105=%s zdelt=%s pinf=%s" % (
+            ";".join(",".join(fx(v) for v in row) for row in A), ",".join(fx(v) for v in cvec), fx(0.0),
+            ",".join(fx(v) for v in x0), "-" if bounds is None else ";".join(",".join(fx(v) for v in b) for b in bounds),
+            fx(tol_f), fx(tol_x), max_iter, fx(1 + 0.05), fx(0.00025), fx(math.inf))
+
+    def nm_alias(label, r, given):
+        """(2) aliasing of a nelder_mead result with its inputs and with every earlier result"""
+        for nm_, arr in given:
+            if np.shares_memory(r.x, arr) or np.shares_memory(r.final_simplex, arr):
+                ctx.spec_fail("nm_alias_input", "nelder_mead (%s): a returned array shares memory with the input %s" % (label, nm_), {"call": label})
+        for lab2, _o, _f, raw in kept:
+            if raw is not None and raw is not r and (np.shares_memory(r.x, raw.x) or np.shares_memory(r.final_simplex, raw.final_simplex)
+                                                     or np.shares_memory(r.x, raw.final_simplex)):
+                ctx.spec_fail("nm_alias_earlier_result", "nelder_mead (%s): a returned array shares memory with the result of %s" % (label, lab2),
+                              {"call": label, "earlier": lab2})
+        if np.shares_memory(r.x, r.final_simplex):
+            # undocumented: x is a view of a row of final_simplex (writing to one changes the other)
+            finding(ctx, "nm_x_is_view_of_final_simplex", "nelder_mead: results.x shares memory with results.final_simplex (x is a view of "
+                    "its row; the docstring promises neither)", {"call": label})
+
+    def nm_given():
+        return [("x0", x0), ("bounds", bnd), ("args[0]", A), ("args[1]", cvec)]
+
+    rc = nelder_mead(_quad, x0, bounds=bnd, args=(A, cvec, 0.0), tol_f=1e-10, tol_x=1e-10, max_iter=1000)
+    nm_canon = nm_str(rc)
+    keep("nelder_mead canonical", nm_canon, rc)
+    nm_alias("canonical", rc, nm_given())
+    cases.append(Case(nm_line(bnd, 1e-10, 1e-10, 1000), nm_canon, tag="forms"))
+    ru = nelder_mead(_quad, x0, bounds=np.array([[], []]).T, args=(A, cvec, 0.0), tol_f=1e-10, tol_x=1e-10, max_iter=1000)
+    nm_canon_u = nm_str(ru)
+    keep("nelder_mead canonical, no bounds", nm_canon_u, ru)
+    nm_alias("canonical no bounds", ru, nm_given())
+    cases.append(Case(nm_line(None, 1e-10, 1e-10, 1000), nm_canon_u, tag="forms"))
+    # forms (each is a separate Numba specialisation of the whole routine: a rotating sample in the quick tier)
+    big = np.zeros((4, 6))
+    big[::2, ::3] = bnd
+    two_n = np.ascontiguousarray(bnd.T)
+    nm_forms = [
+        ("x0 int64", lambda: nelder_mead(_quad, x0.astype(np.int64), bounds=bnd, args=(A, cvec, 0.0)), nm_canon),
+        ("x0 float32", lambda: nelder_mead(_quad, x0.astype(np.float32), bounds=bnd, args=(A, cvec, 0.0)), nm_canon),
+        ("x0 strided view", lambda: nelder_mead(_quad, np.array([2.0, 9.0, 1.0, 9.0])[::2], bounds=bnd, args=(A, cvec, 0.0)), nm_canon),
+        ("x0 reversed view", lambda: nelder_mead(_quad, np.array([1.0, 2.0])[::-1], bounds=bnd, args=(A, cvec, 0.0)), nm_canon),
+        ("bounds F order", lambda: nelder_mead(_quad, x0, bounds=np.asfortranarray(bnd), args=(A, cvec, 0.0)), nm_canon),
+        ("bounds int64", lambda: nelder_mead(_quad, x0, bounds=bnd.astype(np.int64), args=(A, cvec, 0.0)), nm_canon),
+        ("bounds float32", lambda: nelder_mead(_quad, x0, bounds=bnd.astype(np.float32), args=(A, cvec, 0.0)), nm_canon),
+        ("bounds strided view", lambda: nelder_mead(_quad, x0, bounds=big[::2, ::3], args=(A, cvec, 0.0)), nm_canon),
+        ("bounds transposed view", lambda: nelder_mead(_quad, x0, bounds=two_n.T, args=(A, cvec, 0.0)), nm_canon),
+        ("all positional", lambda: nelder_mead(_quad, x0, bnd, (A, cvec, 0.0), 1e-10, 1e-10, 1000), nm_canon),
+        ("tolerances float32/0d, max_iter np.int32", lambda: nelder_mead(_quad, x0, bounds=bnd, args=(A, cvec, 0.0), tol_f=np.float64(1e-10),
+                                                                        tol_x=np.array(1e-10), max_iter=np.int32(1000)), nm_canon),
+        ("max_iter float", lambda: nelder_mead(_quad, x0, bounds=bnd, args=(A, cvec, 0.0), max_iter=1000.0), nm_canon),
+        ("bounds and tolerances omitted", lambda: nelder_mead(_quad, x0, args=(A, cvec, 0.0)), nm_canon_u),
+        ("x0 list", lambda: nelder_mead(_quad, [2.0, 1.0], bounds=bnd, args=(A, cvec, 0.0)), nm_canon),
+        ("x0 tuple", lambda: nelder_mead(_quad, (2.0, 1.0), bounds=bnd, args=(A, cvec, 0.0)), nm_canon),
+    ]
+    # quick tier: the positional form and the refused forms always, one recompiling form in two runs out of three
+    chosen = nm_forms if ctx.thorough else ([nm_forms[9]] + rng.sample(nm_forms[:9] + nm_forms[10:13], 1 if rng.random() < 0.67 else 0)
+                                            + nm_forms[13:])
+    for label, call, want in chosen:
+        err, r = guarded(call)
+        ctx.count("forms:nm:" + label)
+        if err == "NOT-ACCEPTED":
+            ctx.count("forms:not-accepted:nelder_mead:" + label)
+            continue
+        out = err if err else nm_str(r)
+        if out != want:
+            ctx.spec_fail("argform_nm", "nelder_mead with %s gives a different result than the float64 C-ordered call" % label,
+                          {"form": label, "got": out, "canonical": want})
+        if r is not None:
+            keep("nelder_mead " + label, out, r)
+            nm_alias(label, r, nm_given())
+        rejudge("nelder_mead " + label)
+    # _initialize_simplex (small, cheap to specialise): every array form of x0 on every run
+    want_init = _bits(nm_mod._initialize_simplex(x0, bnd))
+    init_forms = [("int64", x0.astype(np.int64)), ("int8", x0.astype(np.int8)), ("uint16", x0.astype(np.uint16)),
+                  ("float32", x0.astype(np.float32)), ("strided", np.array([2.0, 9.0, 1.0, 9.0])[::2]),
+                  ("reversed", np.array([1.0, 2.0])[::-1]), ("bounds F/int", x0)]
+    for label, xform in init_forms:
+        b_ = np.asfortranarray(bnd.astype(np.int64)) if label == "bounds F/int" else bnd
+        got = nm_mod._initialize_simplex(xform, b_)
+        ctx.count("forms:init-simplex:" + label)
+        if _bits(got) != want_init:
+            ctx.spec_fail("argform_init_simplex", "_initialize_simplex with x0 as %s differs from the float64 call: %r" % (label, got.tolist()),
+                          {"form": label, "got": got.tolist()})
+        if np.shares_memory(got, xform) or np.shares_memory(got, b_):
+            ctx.spec_fail("nm_alias_input", "_initialize_simplex: the simplex shares memory with an input", {"form": label})
+    # tol_f = tol_x = 0 (explicit zeros, as int and float): legal, runs to max_iter, never 'success'
+    for z in ((0, 0) if ctx.thorough else (0.0,)):
+        rz = nelder_mead(_quad, x0, bounds=bnd, args=(A, cvec, 0.0), tol_f=z, tol_x=z, max_iter=60)   # (int zeros: thorough only)
+        ctx.count("forms:nm:zero-tolerances")
+        if rz.success or rz.nit != 60:
+            ctx.spec_fail("argform_nm_zero_tol", "nelder_mead with tol_f = tol_x = 0 stopped after %d passes with success=%s" % (rz.nit, rz.success),
+                          {"tol": repr(z), "nit": int(rz.nit), "success": bool(rz.success)})
+        keep("nelder_mead zero tolerances", nm_str(rz), rz)
+        cases.append(Case(nm_line(bnd, 0.0, 0.0, 60), nm_str(rz), tag="forms"))
+    # histories: the same call again after everything else, interleaved with other problems
+    for rep_ in range(2):
+        other = nelder_mead(_quad, np.array([0.5, 0.25]), bounds=bnd, args=(A, cvec, 0.0), tol_f=1e-10, tol_x=1e-10, max_iter=20)
+        keep("nelder_mead other problem %d" % rep_, nm_str(other), other)
+        again = nelder_mead(_quad, x0, bounds=bnd, args=(A, cvec, 0.0), tol_f=1e-10, tol_x=1e-10, max_iter=1000)
+        ctx.count("history:repeat")
+        if nm_str(again) != nm_canon:
+            ctx.spec_fail("history_not_a_function", "nelder_mead: repeated call with identical arguments gives a different result",
+                          {"first": nm_canon, "again": nm_str(again)})
+        keep("nelder_mead again %d" % rep_, nm_str(again), again)
+        nm_alias("again %d" % rep_, again, nm_given())
+        rejudge("nelder_mead repeat %d" % rep_)
+    if [_bits(v) for v in nm_inputs] != nm_before:
+        ctx.spec_fail("input_mutated", "nelder_mead modified one of x0 / bounds / args", {"op": "nelder_mead"})
+    # _nelder_mead_algorithm: `vertices` is documented as modified in place — model that explicitly: the returned
+    # final_simplex IS the caller's array, the caller's array holds the final simplex, nothing else is touched
+    if not ctx.thorough and rng.random() < 0.75:
+        return                   # a separate compilation of the whole routine: one quick run in four, every thorough run
+    V0 = np.array([[2.0, 1.0], [2.1, 1.0], [2.0, 1.05]])
+    V = V0.copy()
+    ra = nm_mod._nelder_mead_algorithm(_quad, V, bnd, args=(A, cvec, 0.0), tol_f=1e-10, tol_x=1e-10, max_iter=1000)
+    ctx.count("history:in-place-vertices")
+    if not np.shares_memory(ra.final_simplex, V) or _bits(V) != _bits(ra.final_simplex):
+        ctx.spec_fail("nm_algorithm_in_place", "_nelder_mead_algorithm: `vertices` (documented: modified in place) is not the returned final_simplex", {})
+    if nm_str(ra) != nm_canon:
+        ctx.spec_fail("nm_algorithm_vs_public", "_nelder_mead_algorithm on the initial simplex of x0 differs from nelder_mead(x0)",
+                      {"public": nm_canon, "algorithm": nm_str(ra)})
+    if [_bits(v) for v in nm_inputs] != nm_before:
+        ctx.spec_fail("input_mutated", "_nelder_mead_algorithm modified bounds / args", {"op": "_nelder_mead_algorithm"})
+    rejudge("_nelder_mead_algorithm")
+
+
+# ----------------------------------------------------------------------------------------
 # transcendental functions: spec only (outside the model)
 
 
@@ -1041,6 +1423,7 @@ def run(ctx):
     gen_open_special(ctx, cases)
     gen_brentmax(ctx, cases, ctx.n(300, 4000))
     gen_neldermead(ctx, cases, ctx.n(300, 3000))
+    gen_hardening(ctx, cases)
     gen_transcendental(ctx, ctx.n(20, 200))
     ctx.assumptions.append("doubles vs exact arithmetic: theorems are over ordered fields; the Float instance of the "
                            "same definitions is compared bit for bit with the jitted kernels")
